@@ -35,15 +35,16 @@ type run struct {
 	// lifecycle (C11)
 	inCallback int
 	onDeliver  func(skip int, seen time.Time)
+	noContent  bool
 }
 
 type cstream struct {
-	r         *run
-	id        int
-	conn, dir int
-	chk       *asm.DirChecker
-	completed int
-	deliveries int
+	r             *run
+	id            int
+	conn, dir     int
+	chk           *asm.DirChecker
+	completed     int
+	deliveries    int
 	afterComplete bool
 }
 
@@ -52,6 +53,8 @@ func (r *run) New(netFlow, tcpFlow gopacket.Flow) tcpassembly.Stream {
 	s := &cstream{r: r, id: len(r.streams), conn: -1}
 	if ok {
 		s.conn, s.dir = cd[0], cd[1]
+	}
+	if ok && !r.noContent {
 		s.chk = asm.NewDirChecker(r.h.Conns[s.conn].S[s.dir], r.logs[cd], r.cc.Call)
 	}
 	r.streams = append(r.streams, s)
